@@ -1145,15 +1145,11 @@ class EProxy(EObject):
         if name in ('_wrapped', '_proxy_path', 'resolved', '_proxy_resource'):
             super().__setattr__(name, value)
             return
-        resolved = self.resolved
-        if not resolved:
-            resource = self._proxy_resource
-            decoded = resource.resolve_object(self._proxy_path)
-            if not hasattr(decoded, '_inverse_rels'):
-                self._wrapped = decoded.eClass
-            else:
-                self._wrapped = decoded
-            self.resolved = True
+        if name == '_inverse_rels':
+            super().__setattr__(name, value)
+            return
+        # resolving also hands the recorded referrers over to the target
+        self.force_resolve()
         self._wrapped.__setattr__(name, value)
 
     def __instancecheck__(self, instance):
